@@ -15,7 +15,9 @@ TECHNIQUE = (
     "effect points (temp dir creation, temp file open, each tensor write start/middle/end, callbacks, mode copy, "
     "rename, cleanup, final model write); then EVERY point is hit three times - by an injected OSError, by an injected KeyboardInterrupt (a BaseException that "
     "is not an Exception) and by killing a "
-    "forked child with os._exit - and the directory is inspected against the old/new reference bytes"
+    "forked child with os._exit - and the directory is inspected against the old/new reference bytes; file-system points are "
+    "additionally hit with EXDEV/EBUSY followed by a second fault (exception, crash) at every effect point of the recovery path; "
+    "copies performed through shutil are executed stepwise (truncate / half / rest) so that their middle is a crash point"
 )
 LEVEL_TEXT = (
     "Exhaustive over the Python-visible effect points of each generated configuration (both failure modes), sampled "
@@ -325,8 +327,11 @@ def execute(case):
                             fails.append((f"other-file-changed/{mode}@{site}", f"fault at #{k} {label}: unrelated pre-existing file {kf} changed"))
                 if mode in ("exc", "kbd"):
                     if raised is None:
-                        fails.append((f"fault-swallowed@{site}", f"injected OSError at point #{k} {label} did not reach the caller"))
-                    if not sharded and before_rename:
+                        # the fault was absorbed (e.g. a fallback path): then the save must be a complete, clean one
+                        if after2 != after_ok:
+                            bad = sorted(kf for kf in set(after2) | set(after_ok) if after2.get(kf) != after_ok.get(kf))
+                            fails.append((f"fault-swallowed-incomplete-save@{site}", f"injected {mode} at point #{k} {label} did not reach the caller, yet the directory differs from a successful save in {bad[:4]}"))
+                    if raised is not None and not sharded and before_rename:
                         if d_now != d_old:
                             fails.append((f"destination-changed-on-failure@{site}", f"OSError at #{k} {label} (before/at the rename) but the destination changed"))
                         leftovers = sorted(set(after2) - set(before2))
@@ -350,10 +355,116 @@ def execute(case):
                     break
             if len(fails) > 6:
                 break
+        # ---- second faults on the recovery path ---------------------------------------------------------------
+        # A first file-system fault with another errno (cross-device rename, busy target) may send the writer down a
+        # fallback / clean-up path with effect points of its own; every one of those is hit too (exception and crash).
+        if not sharded and old_dest is not None and not (case["workers"] and case["workers"] > 1) and len(fails) <= 6:
+            import errno as _errno
+
+            for k in points:
+                label = labels[k]
+                if label.startswith(("tensor", "callback")):
+                    continue
+                for eno in (_errno.EXDEV, _errno.EBUSY):
+                    tail, out1 = _run_injected(case, root, f"q{k}e{eno}", dict(target=k, mode="exc", errno_=eno, second="count"))
+                    evals += 1
+                    if out1 is None:
+                        continue
+                    fails.extend(_judge_pair(out1, dest_rel, after_ok, f"{_errno.errorcode[eno]}@{label}", "none", info))
+                    for j, tl in enumerate(tail):
+                        for mode2 in ("exc", "die"):
+                            _, out2 = _run_injected(case, root, f"q{k}e{eno}t{j}{mode2}", dict(target=k, mode="exc", errno_=eno, second=(j, mode2)), fork=(mode2 == "die"))
+                            evals += 1
+                            if out2 is None:
+                                continue
+                            keys.append(f"{k}|{eno}|{j}|{mode2}")
+                            classes.add("second_fault_on_recovery_path")
+                            fails.extend(_judge_pair(out2, dest_rel, after_ok, f"{_errno.errorcode[eno]}@{label.split('(')[0]}", f"{mode2}@{tl.split('(')[0].rstrip('0123456789')}", info))
+                    if len(fails) > 6:
+                        break
+                if len(fails) > 6:
+                    break
         classes.add(f"points={min(len(points) // 10 * 10, 40)}+")
     finally:
         shutil.rmtree(root, ignore_errors=True)
     return dict(failures=_dd(fails), nontrivial=bool(keys), nontrivial_keys=[f"{hash(str(case)) & 0xffffffff}|{k}" for k in keys], classes=sorted(classes), evals=max(evals, 1))
+
+
+def _run_injected(case, root, tag, inj_kwargs, fork=False):
+    """One injected save in a fresh directory. Returns (tail labels, dict(before, after, raised, ext_same)) or (.., None)
+    when the first fault never fired."""
+    from vlib import faultfs
+
+    wdk = os.path.join(root, tag)
+    os.makedirs(wdk)
+    inj_k = [None]
+    try:
+        m2, info2 = setup(case, wdk, inj_k)
+        before2 = listing(wdk)
+        raised = None
+        tail = []
+        if not fork:
+            with faultfs.Injector(**inj_kwargs) as inj2:
+                inj_k[0] = inj2
+                try:
+                    do_save(case, m2, wdk, inj2)
+                except BaseException as e:  # noqa: BLE001
+                    raised = e
+            fired = inj2.fired
+            tail = list(inj2.tail_labels)
+            if inj_kwargs.get("second") not in (None, "count") and inj2.second_fired is None:
+                fired = None
+        else:
+            pid = os.fork()
+            if pid == 0:
+                try:
+                    with faultfs.Injector(**inj_kwargs) as inj2:
+                        inj_k[0] = inj2
+                        try:
+                            do_save(case, m2, wdk, inj2)
+                        except BaseException:  # noqa: BLE001
+                            pass
+                finally:
+                    os._exit(0)
+            _, status = os.waitpid(pid, 0)
+            fired = "x" if os.WEXITSTATUS(status) == 9 else None
+        if fired is None:
+            return tail, None
+        after2 = listing(wdk)
+        ext_ok = True
+        if not fork:
+            for t, data in info2["ext_same"]:
+                try:
+                    if not t.valid() or bytes(t.tobytes()) != data:
+                        ext_ok = False
+                except Exception:
+                    ext_ok = False
+        for t, _ in info2["ext_same"]:
+            try:
+                t.release()
+            except Exception:
+                pass
+        return tail, dict(before=before2, after=after2, raised=raised, ext_ok=ext_ok, died=fork)
+    finally:
+        shutil.rmtree(wdk, ignore_errors=True)
+
+
+def _judge_pair(out, dest_rel, after_ok, first, second, info):
+    """Clauses that hold however many faults hit: the destination is the old or the complete new file, other
+    pre-existing files are untouched, and - when an exception reached the caller with the old file in place -
+    external tensors reading from it still work."""
+    fails = []
+    d_old, d_new, d_now = out["before"].get(dest_rel), after_ok.get(dest_rel), out["after"].get(dest_rel)
+    if d_now != d_old and d_now != d_new:
+        fails.append((f"destination-mixture/{first}+{second}", f"first fault {first}, then {second}: destination holds neither the previous ({None if d_old is None else len(d_old)} B) nor the complete new bytes ({None if d_new is None else len(d_new)} B): {None if d_now is None else len(d_now)} B"))
+    for kf, vf in out["before"].items():
+        if vf is not None and kf != dest_rel and out["after"].get(kf) != vf:
+            fails.append((f"other-file-changed/{first}+{second}", f"first fault {first}, then {second}: unrelated pre-existing file {kf} changed"))
+    if not out["died"] and out["raised"] is not None and d_now == d_old and not out["ext_ok"]:
+        fails.append((f"external-tensor-damaged-on-failure/{first}+{second}", f"first fault {first}, then {second}: the old file is in place but external tensors reading from it are invalid or return other bytes"))
+    if not out["died"] and out["raised"] is None and second == "none" and out["after"] != after_ok:
+        fails.append((f"fault-swallowed-incomplete-save/{first}", f"fault {first} did not reach the caller, yet the directory differs from a successful save"))
+    return fails
 
 
 def _bind_label(inj, label):
